@@ -68,7 +68,35 @@ class Plain:
         pass
 
 
+def run_copies(job):
+    """Direct calls of BpCopyBufferBits(n, dst, src, di, si) on exact-size guarded buffers."""
+    lib = ctypes.CDLL(job["so"])
+    f = lib.BpCopyBufferBits
+    f.restype = None
+    f.argtypes = [ctypes.c_int, ctypes.c_void_p, ctypes.c_void_p, ctypes.c_int, ctypes.c_int]
+    out = []
+    mk = Plain if job.get("guard", "none") == "none" else Guarded
+    for n, di, si, srchex, dsthex in job["copies"]:
+        src = bytes.fromhex(srchex)
+        dst = bytes.fromhex(dsthex)
+        a = mk(len(src), job.get("guard"))
+        b = mk(len(dst), job.get("guard"))
+        try:
+            ctypes.memmove(a.addr, src, len(src))
+            ctypes.memmove(b.addr, dst, len(dst))
+            f(n, b.addr, a.addr, di, si)
+            out.append({"dst": ctypes.string_at(b.addr, len(dst)).hex(),
+                        "src_unchanged": ctypes.string_at(a.addr, len(src)) == src,
+                        "slack": a.slack_ok() and b.slack_ok()})
+        finally:
+            a.free()
+            b.free()
+    return out
+
+
 def run(job):
+    if "copies" in job:
+        return run_copies(job)
     lib = ctypes.CDLL(job["so"])
     fenc = getattr(lib, job["enc"])
     fdec = getattr(lib, job["dec"])
